@@ -3,7 +3,9 @@ package main
 import (
 	"context"
 	"fmt"
+	"io"
 	"strings"
+	"time"
 
 	capnp "capnproto.org/go/capnp/v3"
 	"capnproto.org/go/capnp/v3/rpc"
@@ -24,7 +26,14 @@ import (
 type txOp struct {
 	ctxDone bool
 	l       int
+	cancel1 bool // the send context is cancelled while the first Write of the frame is in progress
 }
+
+// deadlineRWC adds (no-op) deadline support to a writer: ctxWriteCloser.write then takes its
+// SetWriteDeadline path (deadline probe, watcher goroutine) instead of the plain Write.
+type deadlineRWC struct{ *faultRWC }
+
+func (deadlineRWC) SetWriteDeadline(time.Time) error { return nil }
 
 type sinkRWC struct{}
 
@@ -70,11 +79,11 @@ func frameBufs(m *capnp.Message) ([][]byte, error) {
 	return bufs, nil
 }
 
-func runTx(faults map[int]int, ops []txOp) (caseOps string, obs string) {
-	return runTxSafe(faults, ops)
+func runTx(faults map[int]int, ops []txOp, deadline bool) (caseOps string, obs string) {
+	return runTxSafe(faults, ops, deadline)
 }
 
-func runTxSafe(faults map[int]int, ops []txOp) (caseOps string, obs string) {
+func runTxSafe(faults map[int]int, ops []txOp, deadline bool) (caseOps string, obs string) {
 	var opStrs []string
 	defer func() {
 		if e := recover(); e != nil {
@@ -86,7 +95,11 @@ func runTxSafe(faults map[int]int, ops []txOp) (caseOps string, obs string) {
 	for i, n := range faults {
 		f.shortAt[i] = n
 	}
-	tr := rpc.NewStreamTransport(f)
+	var rwc io.ReadWriteCloser = f
+	if deadline {
+		rwc = deadlineRWC{f}
+	}
+	tr := rpc.NewStreamTransport(rwc)
 	var results []string
 	for _, op := range ops {
 		// the buffers of this message, computed on a scratch copy built the same way
@@ -107,6 +120,9 @@ func runTxSafe(faults map[int]int, ops []txOp) (caseOps string, obs string) {
 		if op.ctxDone {
 			c = 1
 		}
+		if op.cancel1 {
+			c = 2
+		}
 		opStrs = append(opStrs, fmt.Sprintf("%d:%d:%s", c, op.l, strings.Join(hx, "+")))
 
 		ctx, cancel := context.WithCancel(context.Background())
@@ -122,7 +138,18 @@ func runTxSafe(faults map[int]int, ops []txOp) (caseOps string, obs string) {
 		if err := buildTxMsg(msg, op.l); err != nil {
 			panic(err)
 		}
-		if err := send(); err != nil {
+		if op.cancel1 {
+			first := true
+			f.hook = func(int) {
+				if first {
+					first = false
+					cancel() // another goroutine cancels the call while the header is being written
+				}
+			}
+		}
+		err = send()
+		f.hook = nil
+		if err != nil {
 			results = append(results, "err")
 		} else {
 			results = append(results, "ok")
@@ -164,14 +191,14 @@ func parseTxCase(line string) (order []int, faults map[int]int, ops []txOp) {
 			q := strings.SplitN(p, ":", 3)
 			fmt.Sscan(q[0], &c)
 			fmt.Sscan(q[1], &l)
-			ops = append(ops, txOp{ctxDone: c == 1, l: l})
+			ops = append(ops, txOp{ctxDone: c == 1, l: l, cancel1: c == 2})
 		}
 	}
 	return
 }
 
-func txOne(out *Out, order []int, faults map[int]int, ops []txOp) {
-	opsStr, obs := runTx(faults, ops)
+func txOne(out *Out, order []int, faults map[int]int, ops []txOp, deadline bool) {
+	opsStr, obs := runTx(faults, ops, deadline)
 	class := "clean"
 	if len(faults) > 0 {
 		class = "faulted"
@@ -179,7 +206,17 @@ func txOne(out *Out, order []int, faults map[int]int, ops []txOp) {
 	if strings.Contains(obs, "nm") {
 		class = "broken"
 	}
-	out.Case("tx", "tx "+fmtFaults(order, faults)+" "+opsStr, obs, class, len(faults) > 0)
+	word := "tx"
+	if deadline {
+		word = "txd"
+	}
+	for _, o := range ops {
+		if o.cancel1 {
+			class += "+cancel-in-write"
+			break
+		}
+	}
+	out.Case(word, word+" "+fmtFaults(order, faults)+" "+opsStr, obs, class, len(faults) > 0 || strings.Contains(class, "cancel"))
 }
 
 func genTx(out *Out, r *Rand, tier string) {
@@ -190,10 +227,10 @@ func genTx(out *Out, r *Rand, tier string) {
 	}
 	// systematic: 3 messages, one fault at every write index, every interesting byte count
 	for _, l := range []int{3, 1100} {
-		ops := []txOp{{false, l}, {false, 8}, {false, l}}
+		ops := []txOp{{l: l}, {l: 8}, {l: l}}
 		for w := 0; w < 8; w++ {
 			for _, k := range []int{0, 1, 7, 8, 9, 1 << 20} {
-				txOne(out, []int{w}, map[int]int{w: k}, ops)
+				txOne(out, []int{w}, map[int]int{w: k}, ops, false)
 			}
 		}
 	}
@@ -202,6 +239,9 @@ func genTx(out *Out, r *Rand, tier string) {
 		ops := make([]txOp, nops)
 		for j := range ops {
 			ops[j] = txOp{ctxDone: r.Intn(8) == 0, l: sizes[r.Intn(len(sizes))]}
+			if !ops[j].ctxDone && r.Intn(6) == 0 {
+				ops[j].cancel1 = true
+			}
 		}
 		faults := map[int]int{}
 		var order []int
@@ -214,6 +254,14 @@ func genTx(out *Out, r *Rand, tier string) {
 			order = append(order, w)
 			faults[w] = []int{0, 1, 2, 7, 8, 9, 16, 100, 1023, 1024, 1 << 20}[r.Intn(11)]
 		}
-		txOne(out, order, faults, ops)
+		txOne(out, order, faults, ops, r.Intn(3) == 0)
+	}
+	// cancellation between the Writes of one frame, every position, both writer kinds
+	for _, dl := range []bool{false, true} {
+		for pos := 0; pos < 3; pos++ {
+			ops := []txOp{{l: 3}, {l: 1100}, {l: 8}}
+			ops[pos].cancel1 = true
+			txOne(out, nil, map[int]int{}, ops, dl)
+		}
 	}
 }
